@@ -40,6 +40,10 @@ func rulesC04(c *Ctx) {
 	c.Floor("C04.bounds", c.CountRule("C04.bounds"), 15)
 	c.Floor("C04.panics", c.CountRule("C04.panics"), 4)
 
+	// ---- a bound parameter is never the nil interface ----
+	bindNonNilRule(c, "C04.bindnil")
+	// ---- comment skippers end at end of input ----
+	commentsRule(c, "C04.comments")
 	// ---- nil tests that cannot succeed ----
 	typedNilC04(c)
 	// ---- token ring ----
